@@ -103,7 +103,9 @@ func (f *Fixture) Universe() []KeyVal {
 			s, e := PeriodStart(l.Kind, idx), PeriodEnd(l.Kind, idx)
 			addTime(s)
 			addTime(s.Add(time.Second))
-			addTime(s.Add(e.Sub(s) / 2).Truncate(time.Second))
+			mid := s.Add(e.Sub(s) / 2).Truncate(24 * time.Hour)
+			addTime(mid) // a midnight inside the period (also spelled 'YYYY-MM-DD')
+			addTime(mid.Add(12*time.Hour + 34*time.Minute + 56*time.Second))
 			addTime(e.Add(-time.Second))
 			addTime(e) // first instant of the next period (a gap or the next table)
 			addTime(s.Add(-time.Second))
